@@ -7,6 +7,7 @@ import (
 
 	"github.com/wokdav/gopki/generator/cert"
 	"github.com/wokdav/gopki/generator/config"
+	v1 "github.com/wokdav/gopki/generator/config/v1"
 	"github.com/wokdav/gopki/generator/db"
 )
 
@@ -59,13 +60,23 @@ func vhFsApiProfile() {
 	}
 	subjects := []pkix.RDNSequence{{rdn(3, "x")}, {rdn(3, "x"), rdn(6, "DE")}, {rdn(7, "Town")}}
 	content := config.CertificateContent{Alias: "e", Profile: "p", Subject: subjects[vChoose("subject", len(subjects))], SerialNumber: 9,
-		KeyAlgorithm: cert.P256, SignatureAlgorithm: cert.ECDSAwithSHA256,
+		KeyAlgorithm: cert.P256, SignatureAlgorithm: cert.ECDSAwithSHA256, Extensions: []config.ExtensionConfig{v1.SubjectKeyIdentifier{Content: "hash"}},
 		Validity: config.CertificateValidity{From: time.Unix(1709640000, 0), Until: time.Unix(1909640000, 0), IsSet: true, IsStatic: true}}
 	want := config.Validate(orig, content)
 	_, err = db.AddAndSign(d, content, false)
 	if want {
 		vReach("accepted")
 		vAssert(err == nil, "a certificate that satisfies the profile as it was added was rejected (a profile without attribute list accepts every subject)")
+		// the same certificate handed in again, now naming a stricter profile
+		// (nothing else differs): the new profile decides
+		strict := config.CertificateProfile{Name: "strict"}
+		strict.SubjectAttributes.Attributes = []config.ProfileSubjectAttribute{{Attribute: "SERIALNUMBER"}}
+		vAssert(d.AddProfile(strict) == nil, "AddProfile failed")
+		again := content
+		again.Profile = "strict"
+		vAssert(!config.Validate(strict, again), "reference: the strict profile must reject this subject")
+		_, err2 := db.AddAndSign(d, again, true)
+		vAssert(err2 != nil, "a certificate handed in again under a profile it violates was accepted (the new profile reference was not taken over)")
 	} else {
 		vReach("rejected")
 		vAssert(err != nil, "a certificate that violates the profile as it was added was accepted")
